@@ -143,6 +143,115 @@ theorem safe_reflFitsP (fuel : Nat) (ns : Ns) (r : Rec) (base : Name) : Safe fal
   refine safe_bind (safe_reflectP fuel ns r) (fun rv => ?_)
   cases rv <;> first | exact safe_anyFitsP fuel ns base _ | exact .ret
 
+
+section assoc
+open Hs.NsA
+
+theorem safe_findReciprocalP (fuel : Nat) (x : NsX) (p r : Name) : Safe false (findReciprocalP fuel x p r) := by
+  unfold findReciprocalP
+  refine safe_bind (safe_inhG fuel x.ns p) (fun ri => ?_)
+  cases ri <;> exact .ret
+
+theorem safe_associationsP (fuel : Nat) (x : NsX) (p a : Name) : Safe false (associationsP fuel x p a) := by
+  unfold associationsP
+  split
+  · exact .ret
+  · split
+    · exact .ret
+    · split
+      · split
+        · split <;> exact .ret
+        · exact .ret
+      · split
+        · split
+          · exact safe_findReciprocalP fuel x p _
+          · exact .ret
+        · exact .ret
+
+theorem safe_supersOfAllP (fuel : Nat) (ns : Ns) : ∀ (ds acc : List Name), Safe false (supersOfAllP fuel ns ds acc) := by
+  intro ds
+  induction ds with
+  | nil => intro acc; exact .ret
+  | cons d ds ih =>
+    intro acc
+    simp only [supersOfAllP]
+    refine safe_bind (safe_allSupP fuel ns.defs d) (fun r => ?_)
+    cases r <;> first | exact ih _ | exact .ret
+
+theorem safe_implementationP (fuel : Nat) (x : NsX) (s : Name) : Safe false (implementationP fuel x s) := by
+  unfold implementationP
+  refine safe_bind (safe_supersOfAllP fuel x.ns _ _) (fun r => ?_)
+  cases r <;> exact .ret
+
+theorem safe_relInnerP (fuel : Nat) (x : NsX) (recs : List RecX) (rel : Name) (recip term : Option Name) (tr : Bool)
+    (id : Option Name) : ∀ (ts : List SubjTag) (q : List Name) (rt : Option Name),
+      Safe false (relInnerP fuel x recs rel recip term tr id ts q rt) := by
+  intro ts
+  induction ts with
+  | nil => intro q rt; exact .ret
+  | cons t rest ih =>
+    intro q rt
+    simp only [relInnerP]
+    split
+    · rename_i s hs
+      have hterm : Safe false (fitsTermP fuel x.ns term s) := by
+        cases term with
+        | none => exact .ret
+        | some tm => exact safe_fitsP fuel x.ns s tm
+      refine safe_bind hterm (fun fr => ?_)
+      cases fr with
+      | ok f =>
+        dsimp only
+        cases relDecide recs tr t q _ f with
+        | inl st => exact .ret
+        | inr p =>
+          obtain ⟨q', rt'⟩ := p
+          exact ih _ _
+      | err => exact .ret
+      | panic => exact .ret
+      | diverge => exact .ret
+      | depth => exact .ret
+    · exact ih _ _
+
+theorem safe_relLoopP (fuel : Nat) (x : NsX) (recs : List RecX) (rel : Name) (recip term : Option Name) (tr : Bool) :
+    ∀ (lf : Nat) (s : RecX) (q : List Name) (rt : Option Name),
+      Safe false (relLoopP fuel x recs rel recip term tr lf s q rt) := by
+  intro lf
+  induction lf with
+  | zero => intro s q rt; exact .ret
+  | succ n ih =>
+    intro s q rt
+    simp only [relLoopP]
+    refine safe_bind (safe_relInnerP fuel x recs rel recip term tr s.id s.tags q rt) (fun r => ?_)
+    cases r with
+    | ok st =>
+      cases st with
+      | ret b => exact .ret
+      | done => exact .ret
+      | next s' q' rt' => exact ih _ _ _
+    | err => exact .ret
+    | panic => exact .ret
+    | diverge => exact .ret
+    | depth => exact .ret
+
+theorem safe_hasRelationshipP (fuel lf : Nat) (x : NsX) (recs : List RecX) (rel : Name) (term target : Option Name)
+    (s : RecX) : Safe false (hasRelationshipP fuel lf x recs rel term target s) := by
+  unfold hasRelationshipP
+  split
+  · exact .ret
+  · refine safe_bind (safe_inhG fuel x.ns rel) (fun ri => ?_)
+    cases ri with
+    | ok inh =>
+      dsimp only
+      split
+      · exact .ret
+      · exact safe_relLoopP fuel x recs rel _ term _ lf s [] target
+    | err => exact .ret
+    | panic => exact .ret
+    | diverge => exact .ret
+    | depth => exact .ret
+end assoc
+
 theorem safe_queryP (cfg : Cfg) (q : Query) : Safe false (queryP cfg q) := by
   cases q with
   | sup k => exact safe_bind (safe_supG _ k) (fun _ => .ret)
@@ -151,6 +260,10 @@ theorem safe_queryP (cfg : Cfg) (q : Query) : Safe false (queryP cfg q) := by
   | fits a b => exact safe_bind (safe_fitsP _ _ a b) (fun _ => .ret)
   | reflect r => exact safe_bind (safe_reflectP _ _ r) (fun _ => .ret)
   | reflFits r b => exact safe_bind (safe_reflFitsP _ _ r b) (fun _ => .ret)
+  | assoc p a => exact safe_bind (safe_associationsP _ _ p a) (fun _ => .ret)
+  | impl k => exact safe_bind (safe_implementationP _ _ k) (fun _ => .ret)
+  | fitsRoot w k => exact safe_bind (safe_fitsP _ _ k _) (fun _ => .ret)
+  | rel recs r term target s => exact safe_bind (safe_hasRelationshipP _ _ _ recs r term target s) (fun _ => .ret)
 
 theorem safe_runQs (cfg : Cfg) : ∀ qs : List Query, Safe false (runQs cfg qs) := by
   intro qs
